@@ -380,6 +380,9 @@ func parseIdx(nm map[string]*types.StructType, s string) *idxDesc {
 			vs = append(vs, atoi64(x))
 		}
 		return &idxDesc{kind: "v", ty: types.NewVector(uint64(len(vs)), types.NewInt(uintArg(p[1]))), vals: vs}
+	case "m": // m:<w>:<e1>,<e2>: a vector with elements that are not all integer literals (`u` undef, `o` poison, else an integer)
+		es := strings.Split(p[2], ",")
+		return &idxDesc{kind: "m", ty: types.NewVector(uint64(len(es)), types.NewInt(uintArg(p[1]))), expr: p[2]}
 	case "z", "u", "o", "n":
 		return &idxDesc{kind: p[0], ty: parseTyIn(nm, p[1])}
 	case "e": // e:<p|a>:<ty>
@@ -409,7 +412,30 @@ func (d *idxDesc) constant() constant.Constant {
 		vt := d.ty.(*types.VectorType)
 		var es []constant.Constant
 		for _, x := range d.vals {
-			es = append(es, constant.NewInt(vt.ElemType.(*types.IntType), x))
+			if it := vt.ElemType.(*types.IntType); it.BitSize == 1 {
+				es = append(es, constant.NewBool(x != 0))
+			} else {
+				es = append(es, constant.NewInt(it, x))
+			}
+		}
+		return constant.NewVector(vt, es...)
+	case "m":
+		vt := d.ty.(*types.VectorType)
+		it := vt.ElemType.(*types.IntType)
+		var es []constant.Constant
+		for _, x := range strings.Split(d.expr, ",") {
+			switch x {
+			case "u":
+				es = append(es, constant.NewUndef(it))
+			case "o":
+				es = append(es, constant.NewPoison(it))
+			default:
+				if it.BitSize == 1 {
+					es = append(es, constant.NewBool(atoi64(x) != 0))
+				} else {
+					es = append(es, constant.NewInt(it, atoi64(x)))
+				}
+			}
 		}
 		return constant.NewVector(vt, es...)
 	case "z":
